@@ -8,8 +8,10 @@
 import Gen.SrcC06
 import CRModel.Index
 import CRModel.ShapeObj
+import CRProofs.Geom
+import CRProps.C06
 namespace CR.T06
-open CR CR.Geom CR.Index CR.Py06
+open CR CR.Geom CR.Index CR.Py06 CR.ShapeObj
 
 /-! ### index maintenance (LaneletNetwork) -/
 
@@ -99,5 +101,109 @@ theorem tie_get_lanelet_id (n : Net) (g : PolyObj) :
     Gen.LaneletNetwork_get_lanelet_id_by_shapely_polygon n g = idOfPoly n g := by
   unfold Gen.LaneletNetwork_get_lanelet_id_by_shapely_polygon idOfPoly dictIdx
   cases dictGet n.idOf g.addr <;> rfl
+
+/-! ### shapes (shape.py) -/
+
+theorem tie_rect_compute_vertices (l w : Rat) (ctr : Pt) (cs : Rat × Rat) :
+    Gen.Rectangle_compute_vertices l w ctr cs = rectVerts l w ctr cs.1 cs.2 := by
+  have h1 : ∀ x : Rat, (-(1 / 2 : Rat)) * x = -(x / 2) := fun x => by ring
+  have h2 : ∀ x : Rat, (1 / 2 : Rat) * x = x / 2 := fun x => by ring
+  simp only [Gen.Rectangle_compute_vertices, rotateTranslate, rectVerts, List.map, h1, h2]
+
+theorem tie_rect_invalidate (o : RectObj) : Gen.Rectangle_invalidate_vertices o = o.invalidate := rfl
+theorem tie_rect_set_length (o : RectObj) (v : Rat) : Gen.Rectangle_set_length o v = o.setLength v := rfl
+theorem tie_rect_set_width (o : RectObj) (v : Rat) : Gen.Rectangle_set_width o v = o.setWidth v := rfl
+theorem tie_rect_set_center (o : RectObj) (v : Pt) : Gen.Rectangle_set_center o v = o.setCenter v := rfl
+theorem tie_rect_set_orientation (o : RectObj) (v : Rat × Rat) : Gen.Rectangle_set_orientation o v = o.setOrientation v := rfl
+
+theorem tie_rect_init (l w : Rat) (c : Option Pt) (o : Rat × Rat) : Gen.Rectangle_init l w c o = RectObj.new l w c o := by
+  simp [Gen.Rectangle_init, tie_rect_set_length, tie_rect_set_width, tie_rect_set_center, tie_rect_set_orientation,
+    RectObj.setLength, RectObj.setWidth, RectObj.setCenter, RectObj.setOrientation, RectObj.invalidate, RectObj.new]
+
+theorem tie_rect_vertices (o : RectObj) : Gen.Rectangle_vertices o = o.readVertices := by
+  unfold Gen.Rectangle_vertices RectObj.readVertices
+  cases h : o.vertices <;> simp [h, tie_rect_compute_vertices, RectObj.verts]
+
+theorem tie_rect_shapely_polygon (o : RectObj) : Gen.Rectangle_shapely_polygon o = o.readPolygon := by
+  unfold Gen.Rectangle_shapely_polygon RectObj.readPolygon
+  cases h : o.polygon <;> simp [h, tie_rect_vertices]
+
+theorem tie_rect_contains_point (ptIn : List Pt → Pt → Bool) (o : RectObj) (p : Pt) :
+    Gen.Rectangle_contains_point ptIn o p = o.containsPoint ptIn p := by
+  simp [Gen.Rectangle_contains_point, RectObj.containsPoint, tie_rect_shapely_polygon]
+
+theorem tie_circle_update (o : CircObj) : Gen.Circle_update_shapely_circle o = o.refresh := by
+  simp [Gen.Circle_update_shapely_circle, CircObj.refresh, exportedRadius]
+
+theorem tie_circle_set_radius (o : CircObj) (r : Rat) : Gen.Circle_set_radius o r = o.setRadius r := by
+  unfold Gen.Circle_set_radius CircObj.setRadius
+  cases h : o.shapely <;> simp [h, tie_circle_update]
+
+theorem tie_circle_set_center (o : CircObj) (c : Pt) : Gen.Circle_set_center o c = o.setCenter c := by
+  unfold Gen.Circle_set_center CircObj.setCenter
+  cases h : o.shapely <;> simp [h, tie_circle_update]
+
+theorem tie_circle_init (r : Rat) (c : Option Pt) : Gen.Circle_init r c = CircObj.new r c := by
+  simp [Gen.Circle_init, CircObj.new, tie_circle_set_radius, tie_circle_set_center, tie_circle_update]
+
+/-- `Circle.contains_point`: `radius >= norm(point - center)` is the closed disc of the model, whatever value `norm` has
+    as long as it is the non-negative root of the squared length. -/
+theorem tie_circle_contains_point (norm : Pt → Rat) (h0 : ∀ v, 0 ≤ norm v) (hn : ∀ v, norm v * norm v = v.x * v.x + v.y * v.y)
+    (r : Rat) (c p : Pt) : Gen.Circle_contains_point norm r c p = inDisc c r p := by
+  have key := inDisc_norm c r p (norm (vsub p c)) (h0 _) (by rw [hn]; rfl)
+  unfold Gen.Circle_contains_point
+  rw [Bool.eq_iff_iff, key]
+  simp [ge_iff_le]
+
+theorem tie_polygon_set_vertices (vs : List Pt) : Gen.Polygon_set_vertices vs = PolyShape.ofVertices vs := rfl
+
+theorem tie_polygon_contains_point (ptIn : List Pt → Pt → Bool) (P : PolyShape) (p : Pt) :
+    Gen.Polygon_contains_point ptIn P p = P.contains ptIn p := by
+  simp [Gen.Polygon_contains_point, Gen.Polygon_contains_point.in_axis_aligned_bounding_box, PolyShape.contains, lessEqual,
+    CR.Py06.all]
+
+theorem tie_shapegroup_contains_point (ss : List Prim) (p : Pt) :
+    Gen.ShapeGroup_contains_point Prim.contains ss p = (Shape.group ss).contains p := by
+  unfold Gen.ShapeGroup_contains_point Shape.contains
+  simp only [lfindSome]
+  induction ss with
+  | nil => rfl
+  | cons s ss ih =>
+    by_cases h : s.contains p = true
+    · simp [List.findSome?_cons, h]
+    · have h' : s.contains p = false := Bool.eq_false_iff.2 h
+      simp only [List.findSome?_cons, h', List.any_cons, Bool.false_or]
+      exact ih
+
+/-- `Lanelet.contains_points` of the current source (assert, then the polygon's own containment test per point) is the
+    model's `containsPoints` (for a lanelet with at least one boundary vertex). -/
+theorem tie_lanelet_contains_points (l : Lanelet) (hne : l.poly.ring ≠ []) (pts : List Pt) :
+    Gen.Lanelet_contains_points inRing l pts = l.containsPoints pts := by
+  unfold Gen.Lanelet_contains_points Lanelet.containsPoints
+  by_cases h : pts.length < 2
+  · have : ¬ (2 ≤ pts.length) := by omega
+    simp [h, this, isValidPolyline, CR.Py.assert, bind, Except.bind]
+  · have : 2 ≤ pts.length := by omega
+    simp only [h, this, isValidPolyline, CR.Py.assert, bind, Except.bind, pure, Except.pure, decide_true, if_true, if_false,
+      lmap, tie_polygon_set_vertices, tie_polygon_contains_point]
+    congr 1
+    apply List.map_congr_left
+    intro p _
+    rw [CR.Props.C06.C06_polyshape_contains inRing _ hne p]
+    rfl
+
+/-- Every place in class Lanelet that builds `self._polygon` (constructor, translate_rotate, convert_to_2d) builds the
+    ring `right boundary ++ reversed left boundary` — structural extraction: the table lists every such assignment of the
+    current source, and each entry is checked. -/
+theorem tie_lanelet_polygon_sites (left right : List Pt) :
+    ∀ e ∈ Gen.Lanelet_polygon_sites left right, e.2 = laneletRing right left := by
+  intro e he
+  simp only [Gen.Lanelet_polygon_sites, List.mem_cons, List.mem_nil_iff, or_false] at he
+  rcases he with h | h | h <;> (rw [h]; rfl)
+
+/-- … and the three methods that must build it are all there. -/
+theorem tie_lanelet_polygon_sites_complete (left right : List Pt) :
+    ∀ m ∈ ["__init__", "translate_rotate", "convert_to_2d"], m ∈ (Gen.Lanelet_polygon_sites left right).map (·.1) := by
+  simp [Gen.Lanelet_polygon_sites]
 
 end CR.T06
